@@ -40,7 +40,7 @@ type defectSet struct {
 	noStart   bool
 	twoLevels bool
 	// bookkeeping
-	terminals map[string]defObs // expected definitions on acceptance, by terminal name
+	terminals   map[string]defObs // expected definitions on acceptance, by terminal name
 	litTokClash bool
 }
 
